@@ -39,12 +39,40 @@ import (
 	"github.com/hashicorp/nodeenrollment/registration"
 	"github.com/hashicorp/nodeenrollment/types"
 	"google.golang.org/protobuf/proto"
+	"google.golang.org/protobuf/types/known/structpb"
 	"google.golang.org/protobuf/types/known/timestamppb"
 
 	"verifharness/engine"
 	"verifharness/recstore"
 	"verifharness/world"
 )
+
+// sigfreshExtraFields returns protobuf encodings of single fields of the request bundle (known and
+// unknown field numbers)
+func sigfreshExtraFields() [][]byte {
+	st, _ := structpb.NewStruct(map[string]any{"role": "admin"})
+	msgs := []*types.FetchNodeCredentialsInfo{
+		{WrappingRegistrationFlowInfo: &types.WrappingRegistrationFlowInfo{}},
+		{WrappingRegistrationFlowInfo: &types.WrappingRegistrationFlowInfo{ApplicationSpecificParams: st}},
+		{WrappingRegistrationFlowInfo: &types.WrappingRegistrationFlowInfo{Nonce: world.RandBytes(32), CertificatePublicKeyPkix: world.NewKeys().Pkix}},
+		{WrappedRegistrationInfo: world.RandBytes(40)},
+		{Id: "some-id"},
+		{PreviousCertificatePublicKeyPkix: world.NewKeys().Pkix},
+		{Nonce: world.RandBytes(32)},
+		{EncryptionPublicKeyBytes: world.NewX25519().Pub},
+		{NotAfter: timestamppb.New(time.Now().Add(1000 * time.Hour))},
+		{NotBefore: timestamppb.New(time.Now().Add(-1000 * time.Hour))},
+		{CertificatePublicKeyType: types.KEYTYPE_ED25519},
+	}
+	var out [][]byte
+	for _, m := range msgs {
+		if b, err := proto.Marshal(m); err == nil && len(b) > 0 {
+			out = append(out, b)
+		}
+	}
+	out = append(out, []byte{0x78, 0x01}, []byte{0xc2, 0x3e, 0x03, 'a', 'b', 'c'}) // unknown fields 15 (varint) and 1000 (bytes)
+	return out
+}
 
 func init() {
 	engine.Register(&engine.Spec{Prop: "C03", Engine: "sigfresh", Level: "exploration", Fn: runSigFresh})
@@ -511,6 +539,13 @@ func sfRunWorld(c *engine.Ctx, target string, replica, nsplice int) {
 		for k := 1; k <= 8; k++ {
 			w.runMutation(c, mk(part, "extend", 0, 0, rb(k)))
 		}
+	}
+	// well-formed extra fields appended to / put in front of the signed bundle (protobuf concatenation
+	// merges them into the decoded message) while the original signature is kept
+	for _, extra := range sigfreshExtraFields() {
+		w.runMutation(c, mk("bundle", "extend", 0, 0, extra))
+		w.runMutation(c, mk("bundle", "splice", 0, 0, extra))
+		r.Count("case_bundle_wellformed_extra_field", 2)
 	}
 	for i := 0; i < nsplice; i++ {
 		part := "bundle"
